@@ -122,7 +122,14 @@ class ZipReader(AbstractReader):
 
                 innerZipBlob = archive.read(member.filename)
 
-                innerMembers = self._readZipDirectory(FileLike(innerZipBlob, member.filename))
+                try:
+                    innerMembers = self._readZipDirectory(FileLike(innerZipBlob, member.filename))
+
+                except Exception:
+                    # a damaged inner archive must not hide the healthy members next to it
+                    debug.logger & debug.flagReader and debug.logger(
+                        'ZIP member %s open failure: %s' % (member.filename, sys.exc_info()[1]))
+                    continue
 
                 for innerFilename, ref in innerMembers.items():
 
